@@ -502,6 +502,15 @@ impl<F: MatchFunc> Aligner<F> {
                 self.Ly[0] = n;
                 self.traceback.get_mut(0, n).set_s_bits(TB_YCLIP_SUFFIX);
             }
+            // ... or delete all of y: this is the move the loop over row 0 below records at (0, n)
+            // whenever it scores higher, also when row 0 of the last column is outside the band
+            // and the score is not updated there. Sn[0] has to be the score of that move.
+            let d_score = self.scoring.gap_open + self.scoring.gap_extend * (n as i32);
+            if d_score > self.Sn[0] {
+                self.Sn[0] = d_score;
+                self.Ly[0] = 0;
+                self.traceback.get_mut(0, n).set_s_bits(TB_DEL);
+            }
         }
 
         for j in 1..=n {
